@@ -341,6 +341,7 @@ def run(ctx, rep):
             ('D5.dispatch', 'the recorded type is the class from_dict must build; enum factories cover every member'),
             ('D6.format', 'save/load use inverse file formats'),
             ('D7.noedit', 'to_dict does not write into the model, from_dict does not write into the caller\'s dict'),
+            ('D8.const', 'the constancy predicate used when a model is rebuilt (_is_constant) is an exact equality test, like the one fit uses (no tolerance)'),
             ('D9.pickle', 'no lambda / nested function is stored in a model attribute'),
             ('D1.passthrough', 'ScipyModel params pass through _get_params/_set_params unchanged (copy out, copy in)')):
         rep.rule(rid, text)
@@ -358,6 +359,7 @@ def run(ctx, rep):
     d6(ctx, rep)
     d7(ctx, rep)
     d9(ctx, rep)
+    d8(ctx, rep)
 
 
 def pair(ctx, rep, cls, w, r):
@@ -746,6 +748,46 @@ def d7(ctx, rep):
             if not bad:
                 rep.ok('D7.noedit', m, m.node.name, "the caller's dict is not written", construct=f'def {name}')
     rep.floor('D7.noedit', 'serialisation methods', n, 14)
+
+
+# ------------------------------------------------------------------- D8 constancy predicate
+TOLERANT = {'allclose', 'isclose', 'approx', 'assert_allclose', 'ptp', 'std', 'var'}
+
+
+def d8(ctx, rep):
+    prog = ctx.prog
+    n = 0
+    for c in prog.classes.values():
+        m = c.methods.get('_is_constant')
+        if m is None:
+            continue
+        n += 1
+        rets = [r for r in walk_no_nested(m.node) if isinstance(r, ast.Return) and r.value is not None]
+        bad = None
+        for r in rets:
+            v = r.value
+            for x in ast.walk(v):
+                if isinstance(x, ast.Call) and call_name(x) in TOLERANT:
+                    bad = (x, f'{call_name(x)}() is a tolerance test')
+                if isinstance(x, ast.Compare) and any(isinstance(o, (ast.Lt, ast.LtE, ast.Gt, ast.GtE)) for o in x.ops):
+                    bad = bad or (x, 'an inequality (threshold) test')
+            if not (isinstance(v, ast.Compare) and len(v.ops) == 1 and isinstance(v.ops[0], ast.Eq)) and bad is None:
+                bad = ('undecided', v)
+        if bad is None:
+            rep.ok('D8.const', m, m.node.name, 'exact equality test', construct='def _is_constant')
+        elif bad[0] == 'undecided':
+            rep.undecided('D8.const', m, bad[1], 'form of the constancy predicate not recognised', construct='def _is_constant')
+        else:
+            rep.bad('D8.const', m, bad[0], f'{bad[1]}: fit decides constancy exactly (one unique value), so a non-constant model whose '
+                    'parameters fall inside the tolerance is rebuilt as a point mass by from_dict', construct='def _is_constant')
+    rep.floor('D8.const', '_is_constant definitions', n, 8)
+    # fit side: exact test
+    cc = prog.method('copulas.univariate.base.Univariate', '_check_constant_value')
+    exact = any(isinstance(x, ast.Compare) and len(x.ops) == 1 and isinstance(x.ops[0], ast.Eq) and const_value(x.comparators[0]) == 1
+                and isinstance(x.left, ast.Call) and call_name(x.left) == 'len' for x in ast.walk(cc.node)) and any(
+        isinstance(x, ast.Call) and call_name(x) == 'unique' for x in ast.walk(cc.node))
+    rep.check('D8.const', cc, cc.node.name, exact, 'fit: constant iff exactly one unique value',
+              'fit no longer decides constancy by `len(np.unique(X)) == 1`', construct='fit-side constancy test')
 
 
 # ---------------------------------------------------------------------------- D9 pickle
